@@ -919,7 +919,11 @@ static int write_table(void *context, cif_value_tp *table_value) {
                     FAIL(soft, CIF_INTERNAL_ERROR);
                 }
 
-                if (u_strHasMoreChar32Than(*key, -1, LINE_LENGTH(context) - (LAST_COLUMN(context) + 4))
+                /*
+                 * The space needed is reckoned in code units, as write_quoted() does; counting code points here made
+                 * a key containing supplementary characters appear to fit when its closing colon no longer did.
+                 */
+                if ((u_strlen(*key) > (LINE_LENGTH(context) - (LAST_COLUMN(context) + 4)))
                         && !write_newline(context)) {
                     FAIL(soft, CIF_ERROR);
                 }
